@@ -12,13 +12,17 @@ from .interp import (Num, Arr, View, Masked, Mask, Const, Obj, Func, Native, Seq
                      Label, Index, LabelIter, Unknown, Unsupported, Raised, NONE, TRUE, FALSE, const_num,
                      is_const_num, num_value)
 
+# C07/C08 are stated for every array the transforms accept (stacked (m, length) inputs included: there axis=0 is not the
+# default last axis); the properties that only ever transform 1-D pair functions (C01, C06 ...) treat axis=0 as the default
+STRICT_AXIS = False
+
 # fully-qualified aliases
 ALIASES = {
     'np': 'numpy',
 }
 
 BUILTINS = ('len', 'range', 'abs', 'isinstance', 'enumerate', 'list', 'set', 'int', 'float', 'iter', 'str',
-            'print', 'tuple', 'min', 'max', 'sum', 'zip', 'object', 'type', 'hasattr', 'getattr', 'id', 'any', 'all', 'bool', 'sorted',
+            'print', 'tuple', 'min', 'max', 'sum', 'zip', 'object', 'type', 'hasattr', 'getattr', 'id', 'any', 'all', 'frozenset', 'bool', 'sorted',
             'ValueError', 'TypeError', 'KeyError', 'NotImplementedError', 'AssertionError', 'ImportError',
             'DeprecationWarning', 'Exception', 'dict')
 
@@ -33,6 +37,9 @@ def attr(ip, lib, name, node):
     full = lib.name + '.' + name
     if full == 'numpy.pi' or full == 'math.pi':
         return Num(N.PI, 'scalar')
+    if full in ('numpy.inf', 'math.inf', 'numpy.Inf', 'numpy.infty'):
+        ip.sym_kind.setdefault('INF', 'scalar')
+        return Num(N.sym('INF'), 'scalar')      # +infinity: exp(-INF) is rewritten to 0 by nf.drop_inf
     if full == 'string.ascii_uppercase':
         return Const('ABCDEFGHIJKLMNOPQRSTUVWXYZ')
     return Lib(full)
@@ -94,6 +101,17 @@ def _binary_ufunc(op):
         kind = 'array' if any(getattr(x, 'kind', 'scalar') == 'array' for x in args[:2]) else 'scalar'
         return ip.make_result(t, kind)
     return g
+
+
+def np_isscalar(ip, args, kwargs, node):
+    x = args[0]
+    if isinstance(x, Num):
+        return TRUE if x.kind == 'scalar' else FALSE
+    if isinstance(x, Const):
+        return TRUE if isinstance(x.v, (int, float, str, bool)) and x.v is not None else FALSE
+    if isinstance(x, (Arr, View, Masked, Seq, Obj)):
+        return FALSE
+    raise Unsupported('np.isscalar(%r)' % (x,), node)
 
 
 def np_shape(ip, args, kwargs, node):
@@ -324,7 +342,10 @@ def np_array_equal(ip, args, kwargs, node):
 
 
 def np_loadtxt(ip, args, kwargs, node):
-    ip.notes.append(('loadtxt', {'args': args, 'loc': ip.loc(node)}))
+    kw = {}
+    for k_, v_ in kwargs.items():
+        kw[k_] = v_.v if isinstance(v_, Const) else (num_value(v_) if is_const_num(v_) else repr(v_))
+    ip.notes.append(('loadtxt', {'args': args, 'loc': ip.loc(node), 'kwargs': kw, 'npos': len(args)}))
     name = 'fileData'
     ip.sym_kind[name] = 'file'
     return Arr(N.sym(name), None, ip)
@@ -421,8 +442,9 @@ def sp_dst(ip, args, kwargs, node):
         v = kwargs[k]
         if k == 'norm' and isinstance(v, Const) and v.v is None:
             continue            # the default: un-normalised
-        if k == 'axis' and is_const_num(v) and int(num_value(v)) in (-1, 0):
-            continue            # pair functions are 1-D: same axis
+        if k == 'axis' and is_const_num(v) and (int(num_value(v)) == -1 or (int(num_value(v)) == 0 and not STRICT_AXIS)):
+            continue            # the default (last axis); axis=0 differs for stacked (m, length) inputs, which the
+                                # transforms accept because the r/k coefficients broadcast along the last axis
         if k == 'n' and not (isinstance(v, Const) and v.v is None):
             tn, _ = ip.term_of(v, node)
             if not P.is_pw(tn) and not P.is_pw(t) and (tn.equals(length_of(ip, t)) or same_length(ip, tn, t)):
@@ -513,6 +535,26 @@ def deepcopy(ip, args, kwargs, node):
             return Seq([cp(x) for x in v.items], v.kind)
         return v
     return cp(args[0])
+
+
+def shallow_copy(ip, args, kwargs, node):
+    """copy.copy: a new container / object whose fields are the *same* objects"""
+    x = args[0]
+    if isinstance(x, Obj):
+        o = Obj(x.cls, dict(x.attrs), None)
+        if x.cls == 'dict':
+            o.attrs['items'] = dict(x.attrs['items'])
+        return o
+    if isinstance(x, Seq):
+        return Seq(list(x.items), x.kind)
+    if isinstance(x, (Arr, View)):
+        t, _ = ip.term_of(x, node)
+        return ip.fresh_array(t)
+    return x
+
+
+def dict_copy(ip, o, args, kwargs, node):
+    return Obj('dict', {'items': dict(o.attrs['items'])})
 
 
 def _copy_native(x, cp):
@@ -734,6 +776,13 @@ def b_id(ip, args, kwargs, node):
     raise Unsupported('id() of %r' % (x,), node)
 
 
+def b_frozenset(ip, args, kwargs, node):
+    x = args[0] if args else Seq([], 'list')
+    if isinstance(x, Seq) and all(isinstance(i, Const) for i in x.items):
+        return Const(frozenset(i.v for i in x.items))
+    raise Unsupported('frozenset of %r' % (x,), node)
+
+
 def b_hasattr(ip, args, kwargs, node):
     o, nm = args
     if not (isinstance(nm, Const) and isinstance(nm.v, str)):
@@ -931,13 +980,13 @@ def np_meshgrid(ip, args, kwargs, node):
 
 
 CALLS = {
-    'numpy.exp': _elementwise(N.exp), 'numpy.log': _elementwise(N.log), 'numpy.sqrt': _elementwise(N.sqrt),
+    'numpy.exp': _elementwise(lambda x: N.drop_inf(N.exp(x))), 'numpy.log': _elementwise(N.log), 'numpy.sqrt': _elementwise(N.sqrt),
     'numpy.sin': _elementwise(N.sin), 'numpy.cos': _elementwise(N.cos), 'numpy.abs': _elementwise(N.absval),
     'numpy.absolute': _elementwise(N.absval),
     'numpy.expm1': _elementwise(_expm1), 'numpy.log1p': _elementwise(_log1p),
     'numpy.square': _elementwise(lambda x: x * x),
     'numpy.add': _binary_ufunc('Add'), 'numpy.subtract': _binary_ufunc('Sub'), 'numpy.multiply': _binary_ufunc('Mult'),
-    'numpy.divide': _binary_ufunc('Div'), 'numpy.true_divide': _binary_ufunc('Div'), 'numpy.shape': np_shape,
+    'numpy.divide': _binary_ufunc('Div'), 'numpy.true_divide': _binary_ufunc('Div'), 'numpy.shape': np_shape, 'numpy.isscalar': np_isscalar,
     'numpy.negative': _elementwise(lambda x: -x),
     'math.exp': _scalar_only(N.exp, 'math.exp'), 'math.sin': _scalar_only(N.sin, 'math.sin'),
     'math.cos': _scalar_only(N.cos, 'math.cos'), 'math.sqrt': _scalar_only(N.sqrt, 'math.sqrt'),
@@ -965,12 +1014,12 @@ CALLS = {
     'scipy.fftpack.dst': sp_dst, 'scipy.fft.dst': sp_dst,
     'scipy.fftpack.next_fast_len': sp_next_fast_len, 'scipy.fft.next_fast_len': sp_next_fast_len,
     'scipy.optimize.root': sp_root,
-    'copy.deepcopy': deepcopy, 'copy.copy': None,
+    'copy.deepcopy': deepcopy, 'copy.copy': shallow_copy,
     'itertools.product': it_product, 'itertools.combinations': it_combinations(False),
     'itertools.combinations_with_replacement': it_combinations(True),
     'warnings.warn': w_warn,
     'builtins.len': b_len, 'builtins.range': b_range, 'builtins.abs': b_abs,
-    'builtins.isinstance': b_isinstance, 'builtins.hasattr': b_hasattr, 'builtins.iter': b_iter, 'builtins.any': b_anyall('any'), 'builtins.all': b_anyall('all'),
+    'builtins.isinstance': b_isinstance, 'builtins.hasattr': b_hasattr, 'builtins.frozenset': b_frozenset, 'builtins.iter': b_iter, 'builtins.any': b_anyall('any'), 'builtins.all': b_anyall('all'),
     'builtins.dict.fromkeys': dict_fromkeys, 'builtins.dict': b_dict, 'builtins.id': b_id, 'builtins.set': b_set, 'builtins.getattr': b_getattr, 'builtins.enumerate': b_enumerate, 'builtins.list': b_list,
     'builtins.tuple': b_list,
     'builtins.int': b_int, 'builtins.float': b_float, 'builtins.print': b_noop,
@@ -1215,5 +1264,5 @@ def dict_items(ip, o, args, kwargs, node):
     return Seq([Seq([Const(k), v]) for k, v in o.attrs['items'].items()], 'list')
 
 
-DICT_METHODS = {'__getitem__': dict_getitem, '__setitem__': dict_setitem, 'get': dict_get, 'values': dict_values,
+DICT_METHODS = {'copy': dict_copy, '__getitem__': dict_getitem, '__setitem__': dict_setitem, 'get': dict_get, 'values': dict_values,
                 'keys': dict_keys, 'items': dict_items, '__iter__': dict_keys}
